@@ -6,7 +6,7 @@
    sequence of allocation failures). *)
 From Coq Require Import NArith Arith List Bool.
 Import ListNotations.
-Require Import UV.C03.Model UV.C03.Inv UV.C03.Proofs UV.C03.Lost UV.C03.Fits UV.C03.Progress UV.C03.Kick UV.C03.Shrink.
+Require Import UV.C03.Model UV.C03.Inv UV.C03.Proofs UV.C03.Lost UV.C03.Fits UV.C03.Progress UV.C03.Kick UV.C03.Shrink UV.C03.Exec.
 
 (* The invariant (UV.C03.Inv.Inv) holds in every reachable state:  for every thread t
      file t ++ contents of (writer's head ++ writer's bufs ++ t's part of buf_write_list ++
@@ -151,6 +151,31 @@ Theorem C03_shrink_loose_refuted :
     In (0, 1) (chain s 0) /\ In (0, 2) (chain s 0) /\ flag_word (flag s (0, 3)) = 6%N.
 Proof. exact shrink_loose_refuted. Qed.
 Print Assumptions C03_shrink_loose_refuted.
+
+(* exec: a task may change its libmcount session mid-way (P_exec: same tid, the old image's buffer keeps its
+   REC_START without REC_END, the new image announces fresh buffers and then TASK_START).  All theorems above
+   quantify over runs containing such steps.  When the recorder reaches that TASK_START, the first entry of
+   shmem_list with the tid is exactly the buffer the old image was recording into, and it is next in the task's
+   chain (so flush_old_shmem queues it before every buffer of the new session) ... *)
+Theorem C03_exec_flushes_old_buffer : forall c nw s b r, reach c nw s -> stopped s = false -> chan s = MExec b :: r ->
+  first_tid (fst b) (shl s) = Some b /\ In b (chain s (fst b)).
+Proof. exact exec_flushes_old_buffer. Qed.
+Print Assumptions C03_exec_flushes_old_buffer.
+
+(* ... non-vacuity: r1, exec, r2, r3 with one-record buffers ends with the file r1 r2 r3 ... *)
+Theorem C03_exec_nonvacuous :
+  exists s, run {| maxsize := 16 |} (init 1) exec_trace = Some s /\ finished s = true /\
+            emitted s 0 = [r16 1; r16 2; r16 3] /\ bytes_of (file s 0) = r16 1 ++ r16 2 ++ r16 3.
+Proof. exact exec_run. Qed.
+Print Assumptions C03_exec_nonvacuous.
+
+(* ... and a recorder that consumes that TASK_START without flush_old_shmem (seeded change C03-9: it also compared
+   the pid, under which a forked child is not listed) writes the same run as r2 r1 r3: complete, but out of order. *)
+Theorem C03_exec_noflush_refuted :
+  exists s, run_noflush {| maxsize := 16 |} (init 1) exec_trace_noflush = Some s /\ finished s = true /\
+            emitted s 0 = [r16 1; r16 2; r16 3] /\ bytes_of (file s 0) = r16 2 ++ r16 1 ++ r16 3.
+Proof. exact exec_noflush_refuted. Qed.
+Print Assumptions C03_exec_noflush_refuted.
 
 (* No buffer is ever filled beyond its capacity (no write past the shm object, nothing torn), for records of
    any size (argument payloads: the size test counts 16 + argsize, `size` advances by 16 + ALIGN (argsize, 8)),
